@@ -172,6 +172,23 @@ static std::string handle(const std::string& cmd, const std::string& args) {
     bool threw = false;
     try { transform_f_phi_to_map<float>(ad, odd, rate, true, order); } catch (std::exception&) { threw = true; }
     if (threw == compatible) return "bad exact-size acceptance";
+    // (d) an ODD exact size along l (a half-l grid cannot tell 2n from 2n+1 points): the map has exactly the requested
+    // dimensions and is the map of the full-grid two-step route (which o_map compares with the Fourier sum)
+    std::array<int,3> oddl = {{size[0], size[1], size[2] + 1}};
+    bool ok_oddl = data_fits_into(ad, oddl);
+    try { check_grid_factors(&sg, oddl); } catch (std::exception&) { ok_oddl = false; }
+    if (ok_oddl) {
+      Grid<float> m3 = transform_f_phi_to_map<float>(ad, oddl, rate, true, order);
+      std::array<int,3> got = {{m3.nu, m3.nv, m3.nw}};
+      if (order == AxisOrder::ZYX) std::swap(got[0], got[2]);
+      if (got != oddl) return "bad exact odd size along l not honoured: asked " + std::to_string(oddl[2]) + " got " + std::to_string(got[2]);
+      Grid<float> ref3 = transform_f_phi_grid_to_map(get_f_phi_on_grid<float>(ad, oddl, false, order));
+      if (ref3.data.size() != m3.data.size()) return "bad odd-l map-size";
+      float mx3 = 0;
+      for (float x : ref3.data) mx3 = std::max(mx3, std::fabs(x));
+      for (size_t i = 0; i < ref3.data.size(); ++i)
+        if (std::fabs(ref3.data[i] - m3.data[i]) > 3e-4f * mx3 + 1e-7f) return "bad odd-l map differs from the full-grid route at " + std::to_string(i);
+    }
     return "ok";
   }
   if (cmd == "o_map" || cmd == "o_sf") {
@@ -212,6 +229,9 @@ static std::string handle(const std::string& cmd, const std::string& args) {
     Grid<float> map = transform_f_phi_grid_to_map(get_f_phi_on_grid<float>(ad, size, half, order));
     // map dimensions
     int nu = size[0], nv = size[1], nw = size[2];
+    // recorded finding C14-half-l-odd: a half-l grid does not record whether the size along l was 2n or 2n+1, and
+    // transform_f_phi_grid_to_map takes 2n: the map of such a grid has one point fewer along l
+    if (half && nw % 2 == 1 && (zyx ? map.nu : map.nw) == nw - 1) return "bad half-l-odd: map has " + std::to_string(nw - 1) + " points along l, grid was built for " + std::to_string(nw);
     if (zyx) {
       if (map.nu != nw || map.nv != nv || map.nw != nu) return "bad map-size-zyx";
     } else if (map.nu != nu || map.nv != nv || map.nw != nw) return "bad map-size";
@@ -347,6 +367,15 @@ static std::string handle(const std::string& cmd, const std::string& args) {
     float mx = 0;
     for (float v : a.data) mx = std::max(mx, std::fabs(v));
     int nu = size[0], nv = size[1], nw = size[2];
+    if (nw % 2 == 1 && a.nw == nw - 1 && c.nu == nw - 1) {
+      // recorded finding C14-half-l-odd (see o_map); the full-grid maps of the two axis orders must still agree
+      for (int iw = 0; iw < nw; ++iw) for (int iv = 0; iv < nv; ++iv) for (int iu = 0; iu < nu; ++iu) {
+        size_t i1 = ((size_t) iw * nv + iv) * nu + iu, i2 = ((size_t) iu * nv + iv) * nw + iw;
+        float mxx = 0; for (float x : b.data) mxx = std::max(mxx, std::fabs(x));
+        if (std::fabs(b.data[i1] - d.data[i2]) > 3e-4f * mxx + 1e-7f) return "bad xyz-vs-zyx (full grids)";
+      }
+      return "bad half-l-odd: half-l maps have " + std::to_string(nw - 1) + " points along l, grids were built for " + std::to_string(nw);
+    }
     for (int iw = 0; iw < nw; ++iw)
       for (int iv = 0; iv < nv; ++iv)
         for (int iu = 0; iu < nu; ++iu) {
